@@ -147,10 +147,11 @@ func init() {
 			"one ONCE call site per query; no LIMIT; function errors under ASYNC belong to C10/C19; SPIN completion before return is not required (only 'adds no column')",
 			"ASYNC calls appear as direct select-list items (the README rules out ASYNC inside FROM clauses)",
 		},
-		Floor:         []string{"q.plain", "q.async", "q.spinasync", "q.spin", "q.once", "q.await-async", "star", "where", "nested", "shape.union", "shape.cte", "arg.null", "page", "page.empty", "lat.zero", "lat.yield", "lat.random", "lat.skewed", "lat.straggler", "table.empty", "imm.async", "imm.spin", "imm.spinasync", "imm.harness", "imm.harness-mixedcase"},
+		Floor:         []string{"q.plain", "q.async", "q.spinasync", "q.spin", "q.once", "q.await-async", "star", "where", "nested", "shape.union", "shape.cte", "arg.null", "page", "page.empty", "joinop.derived", "joinop.both", "lat.zero", "lat.yield", "lat.random", "lat.skewed", "lat.straggler", "table.empty", "imm.async", "imm.spin", "imm.spinasync", "imm.harness", "imm.harness-mixedcase"},
 		MinNontrivial: 30,
 		Phases: []fw.Phase{
 			{Name: "ledger", N: func(t fw.Tier) int { return pick(t, 2500, 40000) }, Run: func(c *fw.Case) { c14Ledger(c, false) }},
+			{Name: "joinop", N: func(t fw.Tier) int { return pick(t, 300, 6000) }, Run: c14JoinOperand},
 			{Name: "immediate", N: func(t fw.Tier) int { return len(c14Immediates) * 3 }, Run: c14Immediate},
 			{Name: "race", Race: true, N: func(t fw.Tier) int { return pick(t, 300, 5000) }, Run: func(c *fw.Case) { c14Ledger(c, true) }},
 		},
@@ -659,3 +660,105 @@ func c14Immediate(c *fw.Case) {
 }
 
 var _ = sort.Strings
+
+
+// c14JoinOperand: ASYNC calls in the select list of a derived table that is an
+// operand of a join. When Exec returns every call has completed and its value
+// sits in the column, whether the outer query reads the column or the row.
+func c14JoinOperand(c *fw.Case) {
+	t := gen.RandTable(c.R, gen.TableSpec{Name: "t1", MinRows: 1, MaxRows: 10, NumCols: 2, StrCols: 1, StrStyle: gen.Plain})
+	doc := DocOf(t)
+	both := c.Idx%3 == 0
+	jn := gen.Pick(c.R, []string{"JOIN", "LEFT JOIN", "HASH_JOIN", "PARALLEL JOIN"})
+	arg := gen.Pick(c.R, []string{"n1", "s1", "n2"})
+	left := fmt.Sprintf("(SELECT rid, ASYNC.VF(%s, rid, 1) AS a, SPINASYNC.VF(n1, rid, 2) FROM t1)", arg)
+	right := "t1"
+	expectedCalls := 2 * len(t.Rows)
+	c.Feature("joinop.derived")
+	if both {
+		right = fmt.Sprintf("(SELECT rid, AWAIT(ASYNC.VF(%s, rid, 3)) AS b FROM t1)", arg)
+		expectedCalls += len(t.Rows)
+		c.Feature("joinop.both")
+	}
+	form := c.Intn(3)
+	var sql string
+	switch form {
+	case 0:
+		sql = "SELECT x.rid AS rid, x.a AS a FROM " + left + " x " + jn + " " + right + " y ON x.rid = y.rid"
+	case 1:
+		sql = "SELECT * FROM " + left + " x " + jn + " " + right + " y ON x.rid = y.rid"
+	default:
+		sql = "SELECT x AS item FROM " + left + " x " + jn + " " + right + " y ON x.rid = y.rid"
+	}
+	profile := c14Profiles[c.Idx%len(c14Profiles)]
+	c14Plan(c, profile, []int32{1, 2, 3}, 64)
+	c.Feature("lat." + profile)
+	ledgerReset()
+	base := vfEntered.Load()
+	o := Run(val.CopyMap(doc), sql)
+	ret := ledgerAppend(evRet, -1, -1)
+	snap := ledgerSnapshot()
+	waitCalls(base, expectedCalls)
+	c.Evals(1)
+	c.Sample(map[string]any{"sql": sql, "rows": len(t.Rows), "latency_profile": profile})
+	det := map[string]any{"sql": sql, "doc": doc, "latency_profile": profile, "observed": o.Describe()}
+	if !o.OK() {
+		c.Violate("error", fmt.Sprintf("join over a derived table with ASYNC items failed: %v", o.Describe()), det)
+		return
+	}
+	ends := map[[2]int32]int{}
+	late := 0
+	for _, e := range snap {
+		if e.kind == evEnd {
+			if e.seq < ret {
+				ends[[2]int32{e.site, e.row}]++
+			} else {
+				late++
+			}
+		}
+	}
+	sites := []int32{1, 2}
+	if both {
+		sites = append(sites, 3)
+	}
+	for _, r := range t.Rows {
+		for _, s := range sites {
+			if ends[[2]int32{s, toI32(r["rid"])}] != 1 {
+				det["ledger"] = fmt.Sprintf("site %d row %v: %d call-end before exec-return, %d after", s, r["rid"], ends[[2]int32{s, toI32(r["rid"])}], late)
+				c.Violate("invocation", fmt.Sprintf("background call (site %d) of row %v in a join operand had completed %d times when Exec returned (expected exactly 1)", s, r["rid"], ends[[2]int32{s, toI32(r["rid"])}]), det)
+				return
+			}
+		}
+	}
+	if probs := val.PlainWalk(o.Rows, "<-"); len(probs) > 0 {
+		det["problems"] = probs
+		c.Violate("not-plain", fmt.Sprintf("unresolved or non-plain value in the result: %s", strings.Join(probs, "; ")), det)
+		return
+	}
+	var want []any
+	for _, r := range t.Rows {
+		x := map[string]any{"rid": r["rid"], "a": vfValue(r[arg], 1)}
+		var y any
+		if both {
+			y = map[string]any{"rid": r["rid"], "b": vfValue(r[arg], 3)}
+		} else {
+			y = val.Copy(r)
+		}
+		switch form {
+		case 0:
+			want = append(want, x)
+		case 1:
+			want = append(want, map[string]any{"x": x, "y": y})
+		default:
+			want = append(want, map[string]any{"item": x})
+		}
+	}
+	det["expected"] = val.Show(want)
+	if !val.SameMultiset(o.Rows, want) {
+		c.Violate("value", fmt.Sprintf("result differs from what the pure function gives: got %s want %s", short(val.Canon(o.Rows), 300), short(val.Canon(want), 300)), det)
+		return
+	}
+	if len(t.Rows) >= 2 {
+		c.Nontrivial(sql + "|" + val.Canon(t.Array()))
+	}
+}
